@@ -85,6 +85,15 @@ def r1(ctx):
             ok = len(it) == 1 and not ad and len(fd) == 1 and okc
         ctx.inst(R, "barrier:first-match-forward", ok, bf.span, "first matching barrier in creation order wins" if ok else
                  "BarrierRepo::barrier does not return the first match of a plain forward scan")
+        # `no barrier matches` is answered by the scan alone: an explicit None is produced only where the iteration is exhausted - a
+        # shortcut (a cached "registry is empty" flag, a counter) is a second copy of the registry's state that has to be kept right
+        nspan = {bb: s["s"] for bb, i, s in bf.all_stmts() if i != "term" and s["p"]["l"] == 0 and not s["p"].get("p") and s["r"]["k"] == "agg" and s["r"].get("variant") == "None"}
+        nones = sorted(nspan)
+        done = [m["None"] for sbb, m, els, adt, pl in variant_edges(bf, lambda p: True) if adt == "std::option::Option" and "None" in m and nx and any(bf.dominated_by_block(sbb, x) for x in nx)]
+        early = [x for x in nones if not (done and bf.dominated_by_any(x, edges=done))]
+        ctx.inst(R, "barrier:none-only-after-the-scan", not early, nspan[early[0]] if early else bf.span, "`None` is returned only when every registered barrier was asked" if not early else
+                 "BarrierRepo::barrier returns None on a path that has not scanned the registry (a fast path on a flag / counter kept next to it): when that copy goes stale "
+                 "(a drop that leaves exactly one barrier clears it) every matching trigger is missed - the surviving barrier is told nothing, a Suspend no longer holds the code")
     ctx.floor(R, 3)
 
 
